@@ -115,7 +115,10 @@ MODEL_CFGS = {
     "c16": [("MC_AsyncDriver", "AsyncDriver_c15.cfg", None), ("MC_AsyncDriver", "AsyncDriver_cancel.cfg", None),
             ("MC_AsyncDriver", "AsyncDriver_loss.cfg", None),
             ("MC_SerialDriver", "SerialDriver_plain.cfg", None), ("MC_SerialDriver", "SerialDriver_silent.cfg", None),
-            ("MC_SerialDriver", "SerialDriver_stale_fac.cfg", None)],
+            ("MC_SerialDriver", "SerialDriver_stale_fac.cfg", None),
+            # flushing the answer queue (again) when the frame has been confirmed loses answers that arrived together
+            # with the confirmation: the seeded change C16b at model level
+            ("MC_SerialDriver", "SerialDriver_plain_fac.cfg", "ExactPairing")],
     "c17": [("MC_AsyncDriver", "AsyncDriver_loss.cfg", None), ("MC_AsyncDriver", "AsyncDriver_limit.cfg", None),
             ("MC_SerialDriver", "SerialDriver_silent.cfg", None), ("MC_SerialDriver", "SerialDriver_cancel_safe.cfg", None),
             # the known finding orphaned-answer-after-cancel at model level: cancellation in flight breaks NoCrossTalk
